@@ -133,6 +133,12 @@ fn main() {
         }
         return;
     }
+    if cmd == "constants" {
+        for c in fips204_verif::gen::source_constants() {
+            println!("{}", hex::encode(c));
+        }
+        return;
+    }
     if cmd == "aligned" {
         // vcheck aligned <set> <rho-hex> <row> <k>: run the aligned-residue construction, print JSON
         let p = refmodel::params(args[2].parse().expect("set"));
